@@ -6,7 +6,7 @@ C06 - "Not is an involution that exchanges Or with And", for whole fields at the
 `FuzzyNot(FuzzyOr(x1 ... xn))` and `FuzzyAnd(FuzzyNot(x1) ... FuzzyNot(xn))` are missing in the same cells and hold the same values elsewhere.
 The two building blocks state what Or / And compute without any hypothesis on the inputs (`or_value`, `and_value`: the limited maximum / minimum).
 -/
-import MPilot.Props.C06
+import MPilot.Props.C06Cells
 
 namespace MPilot.C06
 open MPilot
@@ -184,5 +184,57 @@ theorem and_union_or_exec (sqrt : Rat → Rat) (a : Arr) (t : List Arr) (ra ru r
   rw [hlen, hcol, List.map_cons]
   have := and_le_union_le_or (a.cells.getD i default).val ((t.map fun x => x.cells.getD i default).map (·.val))
   exact ⟨clamp_mono this.1, clamp_mono this.2⟩
+
+/-! ### selected union with k = 1 is Or / And, for whole fields -/
+
+theorem max_unique {l : List Rat} {m m' : Rat} (hm : m ∈ l) (hge : ∀ x ∈ l, x ≤ m) (hm' : m' ∈ l) (hge' : ∀ x ∈ l, x ≤ m') : m = m' :=
+  le_antisymm (hge' m hm) (hge m' hm')
+
+/-- **FuzzySelectedUnion(Truest, 1) = FuzzyOr and FuzzySelectedUnion(Falsest, 1) = FuzzyAnd, for whole fields and any inputs**: the same cells
+missing, the same values elsewhere -/
+theorem selectedUnion_one_exec (sqrt : Rat → Rat) (a : Arr) (t : List Arr) (rs ro : Arr) (i : Nat) (truest : Bool)
+    (hs : exec sqrt (.fuzzySelectedUnion (if truest then "Truest" else "Falsest") ⟨1, true⟩) (a :: t) = .ok rs)
+    (ho : exec sqrt (if truest then .fuzzyOr else .fuzzyAnd) (a :: t) = .ok ro)
+    (hi : ∀ x ∈ a :: t, i < x.cells.length) :
+    ∃ cs co, rs.cells[i]? = some cs ∧ ro.cells[i]? = some co ∧ cs.mask = co.mask ∧ (cs.mask = false → cs.val = co.val) := by
+  obtain ⟨_, _, _, _, cs, h1, hms, hvs⟩ := selectedUnion_cell sqrt _ ⟨1, true⟩ a t rs i hs (hi a List.mem_cons_self)
+  have hne : (column (a :: t) i).map (·.val) ≠ [] := by simp [column]
+  cases truest with
+  | true =>
+    simp only [if_true] at ho hvs
+    obtain ⟨co, h2, hmo, hvo⟩ := or_value sqrt a t ro i ho hi
+    refine ⟨cs, co, h1, h2, by rw [hms, hmo], ?_⟩
+    intro hm
+    have hmo' : co.mask = false := by rw [hmo, ← hms]; exact hm
+    rw [hvs hm, hvo hmo']
+    congr 1
+    have hk : (⟨1, true⟩ : Num).val.num.toNat = 1 := by decide
+    rw [hk]
+    obtain ⟨hmem, hge⟩ := sel_truest_one _ hne
+    have hcol : (column (a :: t) i).map (·.val) = (a.cells.getD i default).val :: (t.map fun x => x.cells.getD i default).map (·.val) := by simp [column]
+    have hmem2 := C07.fold1_max_mem (a.cells.getD i default).val ((t.map fun x => x.cells.getD i default).map (·.val))
+    have hge2 := C07.fold1_max_ge (a.cells.getD i default).val ((t.map fun x => x.cells.getD i default).map (·.val))
+    have : (("Truest" : String) == "Truest") = true := by decide
+    simp only [this]
+    rw [hcol] at hmem hge ⊢
+    exact max_unique hmem hge hmem2 hge2
+  | false =>
+    simp only [Bool.false_eq_true, if_false] at ho hvs
+    obtain ⟨co, h2, hmo, hvo⟩ := and_value sqrt a t ro i ho hi
+    refine ⟨cs, co, h1, h2, by rw [hms, hmo], ?_⟩
+    intro hm
+    have hmo' : co.mask = false := by rw [hmo, ← hms]; exact hm
+    rw [hvs hm, hvo hmo']
+    congr 1
+    have hk : (⟨1, true⟩ : Num).val.num.toNat = 1 := by decide
+    rw [hk]
+    obtain ⟨hmem, hle⟩ := sel_falsest_one _ hne
+    have hcol : (column (a :: t) i).map (·.val) = (a.cells.getD i default).val :: (t.map fun x => x.cells.getD i default).map (·.val) := by simp [column]
+    have hmem2 := C07.fold1_min_mem (a.cells.getD i default).val ((t.map fun x => x.cells.getD i default).map (·.val))
+    have hle2 := C07.fold1_min_le (a.cells.getD i default).val ((t.map fun x => x.cells.getD i default).map (·.val))
+    have : (("Falsest" : String) == "Truest") = false := by decide
+    simp only [this]
+    rw [hcol] at hmem hle ⊢
+    exact le_antisymm (hle _ hmem2) (hle2 _ hmem)
 
 end MPilot.C06
